@@ -239,7 +239,20 @@ func vfLkStep(oracle int, nops int) {
 		if holdE == 100 {
 			ndt = 4
 		}
-		vfTick(env, dts[vfChoice("dt", ndt)])
+		dt := dts[vfChoice("dt", ndt)]
+		if oracle&vfOC04 != 0 {
+			// second by second: every second boundary is a quiescent moment, and the cause of a missing
+			// wake-up (a hold ended / a queued request left) is attributed to the second it happened in
+			for s := int64(0); s < dt; s++ {
+				preS := vfTakeSnap(env.manager(key))
+				vfTick(env, 1)
+				mS := env.manager(key)
+				postS := vfTakeSnap(mS)
+				vfC04Quiescent(env, mS, &preS, &postS)
+			}
+		} else {
+			vfTick(env, dt)
+		}
 	}
 	m2 := env.manager(key)
 	post := vfTakeSnap(m2)
@@ -550,8 +563,12 @@ func vfOracleC04(env *vfEnv, m *LockManager, pre, post *vfSnap, op int, cmd *pro
 			}
 		}
 	}
-	// quiescence: no admissible live request at the head of the queue.  A request queued with the
-	// wait-when-unlocked flag on a free key waits for the next unlock by design and is not "admissible".
+	vfC04Quiescent(env, m, pre, post)
+}
+
+// vfC04Quiescent: no admissible live request at the head of the queue.  A request queued with the
+// wait-when-unlocked flag on a free key waits for the next unlock by design and is not "admissible".
+func vfC04Quiescent(env *vfEnv, m *LockManager, pre, post *vfSnap) {
 	if m != nil {
 		holdEnded := false
 		for _, h := range pre.holders {
